@@ -1107,6 +1107,7 @@ lys_unres_glob_revert(struct ly_ctx *ctx, struct lys_glob_unres *unres)
     uint32_t i, j, idx, *prev_lo, temp_lo = 0;
     struct lysf_ctx fctx = {.ctx = ctx};
     struct ly_set *dep_set;
+    struct lys_module *m, *latest;
     LY_ERR ret;
 
     for (i = 0; i < unres->implementing.count; ++i) {
@@ -1128,6 +1129,23 @@ lys_unres_glob_revert(struct ly_ctx *ctx, struct lys_glob_unres *unres)
 
         /* remove the module from the context */
         ly_set_rm(&ctx->list, fctx.mod, NULL);
+
+        if (fctx.mod->latest_revision & LYS_MOD_LATEST_REV) {
+            /* the newest of the remaining revisions is the latest revision again */
+            latest = NULL;
+            for (j = 0; j < ctx->list.count; ++j) {
+                m = ctx->list.objs[j];
+                if (strcmp(m->name, fctx.mod->name)) {
+                    continue;
+                }
+                if (!latest || (m->revision && (!latest->revision || (strcmp(m->revision, latest->revision) > 0)))) {
+                    latest = m;
+                }
+            }
+            if (latest) {
+                latest->latest_revision |= LYS_MOD_LATEST_REV;
+            }
+        }
 
         /* remove it also from dep sets */
         for (j = 0; j < unres->dep_sets.count; ++j) {
